@@ -783,13 +783,16 @@ func (vfs *MemFS) removeAll(parent *dirNode) error {
 		return vfs.err.PermDenied
 	}
 
-	for _, child := range parent.children {
+	for name, child := range parent.children {
 		if c, ok := child.(*dirNode); ok {
 			err := vfs.removeAll(c)
 			if err != nil {
 				return err
 			}
 		}
+
+		// the entry goes with the node : if a later step fails, what was released is not listed any more.
+		parent.removeChild(name)
 
 		child.Lock()
 		child.delete()
